@@ -258,6 +258,11 @@ def main(tier, seed, replay=None):
                     if keys_iso(("ok", None, S.parse_report(c0))) == keys_iso(("ok", None, S.parse_report(c1))) and (fmt == "json-ld" or isomorphic(c0, c1)):
                         rep.known_finding(KNOWN_NATIVE, NATIVE_WHAT)
                         continue
+                    # both listed rdflib effects at once: literals re-spelled AND a shared list written twice
+                    if fmt != "json-ld" and KNOWN_LISTS in known and keys_iso(("ok", None, S.parse_report(c0))) == keys_iso(("ok", None, S.parse_report(c1))) and only_extra_list_cells(c0, c1):
+                        rep.known_finding(KNOWN_NATIVE, NATIVE_WHAT)
+                        rep.known_finding(KNOWN_LISTS, LISTS_WHAT)
+                        continue
                 if not same:
                     from rdflib.compare import graph_diff, to_isomorphic
                     _, da, db = graph_diff(to_isomorphic(g0), to_isomorphic(g1))
@@ -347,6 +352,10 @@ def main(tier, seed, replay=None):
                     c0, c1 = canon_literals(ref[4]), canon_literals(g1)
                     if keys_iso(("ok", None, S.parse_report(c0))) == keys_iso(("ok", None, S.parse_report(c1))) and (fmt == "json-ld" or isomorphic(c0, c1)):
                         rep.known_finding(KNOWN_NATIVE, NATIVE_WHAT)
+                        continue
+                    if fmt != "json-ld" and KNOWN_LISTS in known and keys_iso(("ok", None, S.parse_report(c0))) == keys_iso(("ok", None, S.parse_report(c1))) and only_extra_list_cells(c0, c1):
+                        rep.known_finding(KNOWN_NATIVE, NATIVE_WHAT)
+                        rep.known_finding(KNOWN_LISTS, LISTS_WHAT)
                         continue
                 if not same:
                     diffs.append((c, "the report printed by -f %s differs from the report graph of the API for the same files" % fmt, ref, o1, opts))
